@@ -192,3 +192,12 @@ Theorem C18_source_thin_bodies :
   thin_of "GenericArray<T,N>" "uninit" = Some "unsafe { MaybeUninit :: < GenericArray < MaybeUninit < T > , N > > :: uninit () . assume_init () }" /\
   thin_of "GenericArray<T,N>" "assume_init" = Some "const_transmute :: < _ , MaybeUninit < GenericArray < T , N > > > (array) . assume_init ()".
 Proof. repeat split. Qed.
+
+(* const_transmute as it stands in src/lib.rs now: size test, then a by-value union reinterpretation *)
+Theorem C18_source_const_transmute_body :
+  small_of "" "const_transmute" =
+    Some ["if mem :: size_of :: < A > () != mem :: size_of :: < B > () { panic ! (""Size mismatch for generic_array::const_transmute"") ; }";
+          "# [repr (C)] union Union < A , B > { a : ManuallyDrop < A > , b : ManuallyDrop < B > , }";
+          "let a = ManuallyDrop :: new (a) ;";
+          "ManuallyDrop :: into_inner (Union { a } . b)"].
+Proof. exact tie_const_transmute_body. Qed.
